@@ -530,7 +530,7 @@ impl Sim {
         let mut e = "none".to_string();
         let id;
         match t {
-            "SOrd" | "SInd" => id = c.varint()?,
+            "SOrd" | "SInd" | "SUnr" => id = c.varint()?,
             "SMap" => {
                 id = c.varint()?;
                 let bits = c.varint()?;
@@ -561,7 +561,7 @@ impl Sim {
         let mut e = "none".to_string();
         let id;
         match t {
-            "COrd" => id = c.varint()?,
+            "COrd" | "CUnr" => id = c.varint()?,
             "CMap" => {
                 id = c.varint()?;
                 let bits = c.varint()?;
@@ -879,6 +879,11 @@ impl Sim {
         self.clients[ci].s2c[ch].remove(pos).is_some()
     }
 
+    pub fn drop_c2s(&mut self, c: &str, ch: usize, pos: usize) -> bool {
+        let ci = self.ci(c);
+        self.clients[ci].c2s[ch].remove(pos).is_some()
+    }
+
     pub fn deliver_c2s(&mut self, c: &str, ch: usize, pos: usize) -> bool {
         let ci = self.ci(c);
         let cl = &mut self.clients[ci];
@@ -1105,11 +1110,12 @@ impl Sim {
             .verif_snapshot()
             .into_iter()
             .map(|(u, t, n, idx, body)| {
-                let ents = self.with_names(Some(ci), |names| {
-                    wire::decode_mutate_body(&mut wire::Cur::new(&body), names).map(|x| Value::Object(x.0))
+                let dec = self.with_names(Some(ci), |names| {
+                    wire::decode_mutate_body(&mut wire::Cur::new(&body), names).map(|x| (Value::Object(x.0), x.2))
                 });
+                let (ents, order) = dec.unwrap_or_else(|e| (json!({"?": e}), Vec::new()));
                 json!({"upd": u.get(), "tick": t.get(), "idx": idx, "cnt": if self.cfg.track { n as i64 } else { -1 },
-                       "ents": ents.unwrap_or_else(|e| json!({"?": e}))})
+                       "ents": ents, "order": order})
             })
             .collect();
         let mut pre = serde_json::Map::new();
